@@ -213,7 +213,9 @@ CLAIMED["C14"] = dict(
          "instruction id x operand patterns from a weird-operand alphabet (ids out of range, wrong groups, invalid labels, segment 7, vector index, undefined option bits, bad extra "
          "register, element types, huge sizes) + invalid bind/align/embed/section/label calls + valid predecessors/successors; every call judged on the spot (return code, handler "
          "count, holder state before/after, one-shot state) and differentially against a twin that receives only the accepted calls; unrepresentable operands carry a must-reject reason; "
-         "accepted bytes are decoded by objdump/llvm-mc (exactly one instruction, no unrequested component). Each unit runs in a forked child under ASan/UBSan with a CPU watchdog.",
+         "accepted bytes are decoded by objdump/llvm-mc (exactly one instruction, no unrequested component). Each unit runs in a forked child under ASan/UBSan with a CPU watchdog. "
+         "Leg 2 (harness/c14_faultstate.cpp): calls that fail because the k-th heap / arena request fails (every k) x handler kinds x one-shot decorations x buffer-growth position: "
+         "nothing appended, one-shot state cleared, image equal to a fresh twin given the accepted calls.",
     note="The alphabet of invalid values is finite (chosen per field boundary); combinations of more than two invalid fields per call are not explored.",
     technique="exhaustive enumeration of invalid-input alphabets x instruction ids x emitter configurations and short call histories on the implementation with state-differential, sanitizer and disassembler oracles",
     design_ref="3/C14", engine="harness/c14_invalid.cpp")
